@@ -29,11 +29,30 @@ func (P *Prog) keyValidate() *ssa.Function {
 // that switches on the key type (not the one that first consults k.Algorithm).
 func (P *Prog) keyDerive() *ssa.Function {
 	val := P.keyValidate()
-	for _, ci := range callsIn(val, nil) {
-		c := staticCallee(ci)
-		if c != nil && P.inPkg(c) && c.Signature.Results().Len() == 2 && isNamed(c.Signature.Results().At(0).Type(), cosePath, "Algorithm") {
-			return c
+	var visit func(f *ssa.Function, depth int) *ssa.Function
+	visit = func(f *ssa.Function, depth int) *ssa.Function {
+		for _, ci := range callsIn(f, nil) {
+			c := staticCallee(ci)
+			if c == nil || !P.inPkg(c) {
+				continue
+			}
+			if c.Signature.Results().Len() == 2 && isNamed(c.Signature.Results().At(0).Type(), cosePath, "Algorithm") && errIndex(c) == 1 {
+				return c
+			}
 		}
+		if depth < 2 {
+			for _, ci := range callsIn(f, nil) {
+				if c := staticCallee(ci); c != nil && P.inPkg(c) && c != f {
+					if d := visit(c, depth+1); d != nil {
+						return d
+					}
+				}
+			}
+		}
+		return nil
+	}
+	if d := visit(val, 0); d != nil {
+		return d
 	}
 	undecidedf("anchor not found: algorithm derivation called by the consistency check")
 	return nil
@@ -166,7 +185,18 @@ func runC15(r *Report, tier string) {
 	EC2 := "call<(*Key).EC2>(%K)"
 	OKP := "call<(*Key).OKP>(%K)"
 	nsucc := map[string]int{}
-	for _, p := range P.allPaths(val) {
+	vocab := map[*ssa.Function]bool{derive: true}
+	for _, n := range []string{"EC2", "OKP", "Symmetric"} {
+		if f := P.methodOf(P.mustNamed("Key"), n); f != nil {
+			vocab[f] = true
+		}
+	}
+	for _, f := range P.Funcs {
+		if f.Signature.Recv() == nil && len(f.Params) == 1 && isNamed(f.Params[0].Type(), cosePath, "Curve") {
+			vocab[f] = true // curve size
+		}
+	}
+	for _, p := range P.deepViews(val, func(f *ssa.Function) bool { return vocab[f] }) {
 		if !p.feasible() {
 			continue
 		}
